@@ -191,6 +191,9 @@ var ErrInjected = fmt.Errorf("verif: injected store failure")
 // FailNext makes the next n calls of op ("create","update","destroy") fail before reaching the store.
 func (p *Proxy) FailNext(op string, n int) { p.mu.Lock(); p.failNext[op] += n; p.mu.Unlock() }
 
+// ClearFailures drops injected failures that have not been consumed yet.
+func (p *Proxy) ClearFailures() { p.mu.Lock(); clear(p.failNext); p.mu.Unlock() }
+
 func (p *Proxy) gate(ctx context.Context, op string) {
 	if p.MaxDelay <= 0 || noGate(ctx) {
 		return
